@@ -1,5 +1,5 @@
 (** C01 — Node resources are never oversubscribed by scheduling decisions.
-    Statements only; proofs in Proofs/Admissible.v and Proofs/Node.v.
+    Statements only; proofs in Proofs/Admissible.v, Proofs/Node.v, Proofs/CycleSafe.v and Proofs/Snapshot.v.
     The node model (Model/Node.v) is tied to the real NodeInfo by the C14
     correspondence check and to real scheduling cycles by the cycle-level
     refinement check (Run/Cycle.v: every real Bind / Evict / TaskPipelined is an
@@ -7,7 +7,7 @@
     model's). *)
 From Coq Require Import List ZArith PArith Bool.
 From KaiV Require Import Model.Res Model.Status Model.AMap Model.Node Model.NodeSpec Proofs.Node Proofs.Admissible
-     Run.NodeObs Run.Cycle Run.C01 Proofs.CycleSafe.
+     Run.NodeObs Run.Cycle Run.C01 Proofs.CycleSafe Model.Snapshot Proofs.Snapshot.
 Import ListNotations.
 Open Scope Z_scope.
 
@@ -94,6 +94,124 @@ Theorem C01_terminating_pods_are_releasing :
     task_status ph true on_node has_br gated = Releasing.
 Proof. intros ph on_node has_br gated H. destruct ph, on_node, has_br, gated; try reflexivity; discriminate H. Qed.
 Print Assumptions C01_terminating_pods_are_releasing.
+
+(** ** The snapshot charges every pod that occupies a node (Model/Snapshot.v, Proofs/Snapshot.v)
+
+    The two theorems above speak about ONE pod built with a given BindRequest.  Which request a pod is built
+    with, and which node it is then added to, is decided by the snapshot code: snapshotBindRequests (requests for
+    nodes that are gone are set aside), GetBindRequestForPod (a terminally failed request counts as none: IsFailed,
+    backoff rule), NewTaskInfoWithBindRequest (node name, else the request's node), AddTasksToNode.  The model of
+    that pipeline is [snap_node] / [snapshot]; it is compared with the real ClusterInfo.Snapshot on generated API
+    worlds (case kind FSnapshot, Run/C01.v).  The ground truth is stated on the API world alone: a pod
+    [occupies_on] node n when it has not finished and sits on n, or has no node yet and a BindRequest that is not
+    terminally failed - pending, failed with retries left, being deleted, or SERVED with the pod update still in
+    flight - selects n.  [WorldWf]: pod names distinct, at most one request per pod, nodes start empty.
+    For ALL such worlds (any number of nodes, pods and requests): *)
+
+(** the books of every snapshot node are exactly the recomputation from its occupants: used, idle and releasing
+    resources and the memory used / allocated / releasing on every shared GPU device *)
+Theorem C01_snapshot_charges_occupying_pods :
+  forall (w : world) (nid : positive) (n0 : node),
+    WorldWf w -> alookup nid (w_nodes w) = Some n0 ->
+    agrees (snap_node false w nid n0) (occupants w nid).
+Proof. exact snapshot_books. Qed.
+Print Assumptions C01_snapshot_charges_occupying_pods.
+
+(** idle + what the occupying pods ask for = allocatable, for CPU, memory, pod slots, MIG and extended resources *)
+Theorem C01_snapshot_idle_plus_occupying_is_allocatable :
+  forall (w : world) (nid : positive) (n0 : node),
+    WorldWf w -> alookup nid (w_nodes w) = Some n0 ->
+    eq_nogpu (radd (n_idle (snap_node false w nid n0)) (rsum (map charge (occupants w nid)))) (n_alloc n0).
+Proof. exact snapshot_idle_plus_occupants. Qed.
+Print Assumptions C01_snapshot_idle_plus_occupying_is_allocatable.
+
+(** ... and for whole GPUs as well when no pod of the world shares a GPU (shared devices: the per-device memory
+    is in the first theorem, the device count is C02's) *)
+Theorem C01_snapshot_idle_plus_occupying_is_allocatable_gpu :
+  forall (w : world) (nid : positive) (n0 : node),
+    WorldWf w -> NoSharing w -> alookup nid (w_nodes w) = Some n0 ->
+    radd (n_idle (snap_node false w nid n0)) (rsum (map charge (occupants w nid))) = n_alloc n0.
+Proof. exact snapshot_idle_plus_occupants_gpu. Qed.
+Print Assumptions C01_snapshot_idle_plus_occupying_is_allocatable_gpu.
+
+(** every occupying pod is held by its node in the snapshot, with a status the node accounts and its whole request
+    charged ... *)
+Theorem C01_occupying_pod_is_charged :
+  forall (w : world) (p : wpod) (nid : positive) (n0 : node),
+    WorldWf w -> alookup nid (w_nodes w) = Some n0 -> In p (w_pods w) -> occupies_on w p nid = true ->
+    exists t, In t (tasks_of (snap_node false w nid n0)) /\ t_id t = wp_id p
+              /\ active_used (t_status t) = true /\ charge t = charge (wp_task p).
+Proof. exact occupying_pod_is_charged. Qed.
+Print Assumptions C01_occupying_pod_is_charged.
+
+(** ... and is never a pending pod that the cycle would place again *)
+Theorem C01_occupying_pod_is_not_schedulable :
+  forall (w : world) (p : wpod) (nid : positive),
+    NoDup (map wb_pod (w_brs w)) -> amem nid (w_nodes w) = true -> occupies_on w p nid = true ->
+    t_status (fst (snap_task false w p)) <> Pending /\ t_status (fst (snap_task false w p)) <> Gated.
+Proof. exact occupying_pod_is_not_schedulable. Qed.
+Print Assumptions C01_occupying_pod_is_not_schedulable.
+
+(** Combined with the bind guard: if the occupying pods of a node fit on it, a Bind that passes the scheduler's
+    guard on the snapshot node leaves occupying + bound within the allocatable amount ... *)
+Theorem C01_bind_on_snapshot_within_allocatable :
+  forall (w : world) (nid : positive) (n0 : node) (t : task) (gs : list positive),
+    WorldWf w -> alookup nid (w_nodes w) = Some n0 -> wf_req t ->
+    let n := snap_node false w nid n0 in
+    NonNegIdle n -> bind_guard n t gs = true ->
+    let d := radd (rsum (map charge (occupants w nid))) (charge t) in
+    cpu d <= cpu (n_alloc n0) /\ mem d <= mem (n_alloc n0) /\ pods d <= pods (n_alloc n0)
+    /\ mig d <= mig (n_alloc n0) /\ ext d <= ext (n_alloc n0).
+Proof. exact bind_on_snapshot_within_allocatable. Qed.
+Print Assumptions C01_bind_on_snapshot_within_allocatable.
+
+(** ... whole GPUs included when no pod shares a GPU *)
+Theorem C01_bind_on_snapshot_within_allocatable_gpu :
+  forall (w : world) (nid : positive) (n0 : node) (t : task) (gs : list positive),
+    WorldWf w -> NoSharing w -> alookup nid (w_nodes w) = Some n0 -> wf_req t ->
+    is_shared t = false -> t_besteffort t = false ->
+    bind_guard (snap_node false w nid n0) t gs = true ->
+    gpu (rsum (map charge (occupants w nid))) + gpu (charge t) <= gpu (n_alloc n0).
+Proof. exact bind_on_snapshot_within_allocatable_gpu. Qed.
+Print Assumptions C01_bind_on_snapshot_within_allocatable_gpu.
+
+(** ... and the same for a whole cycle of calls on the snapshot (C01_cycle_idle_never_negative started from the
+    snapshot of any world whose occupying pods fit): no node ends with a negative idle amount *)
+Theorem C01_cycle_on_snapshot_never_oversubscribes :
+  forall (w : world) (cs : list call) (ns' : amap node),
+    WorldWf w -> ReqsWf w -> NodesNN (snapshot w) ->
+    all_evict_occupying (snap_tis w) (snapshot w) cs = true ->
+    replay (snap_tis w) (snapshot w) cs = Some (ns', true) -> NodesNN ns'.
+Proof. exact cycle_on_snapshot_never_negative. Qed.
+Print Assumptions C01_cycle_on_snapshot_never_oversubscribes.
+
+(** The variant of snapshotBindRequests that leaves served (Succeeded) requests out of the snapshot
+    ([snapshot_gen true]; NOT the code: seeded/C01-4, seeded/C12-3) breaks all of this.  Witness: node 1 has one
+    GPU, pod 1 was bound to it and its request is Succeeded while the pod update is still in flight, pod 2 wants a
+    GPU.  Pod 1 occupies the node; the variant makes it a plain pending pod, the node looks idle, binding pod 2
+    passes the guard and two GPUs are asked of one.  The code's snapshot has pod 1 Binding on node 1 and refuses. *)
+Theorem C01_dropping_served_requests_refuted :
+  exists (w : world) (nid : positive) (n0 : node) (p : wpod),
+    WorldWf w /\ ReqsWf w /\ alookup nid (w_nodes w) = Some n0 /\ In p (w_pods w)
+    /\ map t_id (occupants w nid) = [1%positive]
+    /\ snap_pods true w = [(1%positive, (Pending, None)); (2%positive, (Pending, None))]
+    /\ n_idle (snap_node true w nid n0) = n_alloc n0
+    /\ guard_of (replay (snap_tis w) (snapshot_gen true w) [CBind (wp_id p) nid []]) = Some true
+    /\ gpu (n_alloc n0) < gpu (rsum (map charge (occupants w nid))) + gpu (charge (wp_task p))
+    /\ snap_pods false w = [(1%positive, (Binding, Some 1%positive)); (2%positive, (Pending, None))]
+    /\ guard_of (replay (snap_tis w) (snapshot w) [CBind (wp_id p) nid []]) = Some false.
+Proof. exact drop_succeeded_refuted. Qed.
+Print Assumptions C01_dropping_served_requests_refuted.
+
+(** non-vacuity of the snapshot theorems: the same world is well formed, shares no GPU, its occupying pods fit,
+    and the code's snapshot of node 1 has no idle GPU *)
+Theorem C01_snapshot_nonvacuous :
+  WorldWf rd_world /\ NoSharing rd_world
+  /\ gpu (n_idle (snap_node false rd_world 1 rd_node)) = 0
+  /\ gpu (rsum (map charge (occupants rd_world 1))) = 1
+  /\ NodesNN (snapshot rd_world).
+Proof. exact snapshot_books_nonvacuous. Qed.
+Print Assumptions C01_snapshot_nonvacuous.
 
 (** Whole GPUs, for nodes without shared-GPU work: all six columns of the books
     are exact (C14_node_wholegpu_exact), so the same argument covers GPUs.
